@@ -195,3 +195,49 @@ func VerifC01_CloneSetUpgradeBatch() {
 		verifrt.Assert(curKept <= vStableKept(ctx.DesiredPartition, R), "C01.cloneset.upgrade.skipOnlyIfAlreadyThere")
 	}
 }
+
+// VerifC07_CloneSetUpgradeBatchReachesTarget: whatever UpgradeBatch does — patch the partition or decide that the
+// current one is good enough — once the CloneSet controller has converged to the partition then in effect, the
+// controller's own IsBatchReady accepts: a skipped patch never leaves the batch waiting for pods nobody will update.
+func VerifC07_CloneSetUpgradeBatchReachesTarget() {
+	rc, release, cli, R, _, _ := vSetup(false)
+	ctx, err := rc.CalculateBatchContext(release)
+	if err != nil || ctx == nil {
+		return
+	}
+	kept := 0
+	if rc.object.Spec.UpdateStrategy.Partition != nil {
+		kept = vStableKept(*rc.object.Spec.UpdateStrategy.Partition, R)
+	}
+	if err = rc.UpgradeBatch(ctx); err != nil {
+		return
+	}
+	ws := cli.Writes("patch", "CloneSet")
+	if len(ws) == 1 {
+		s, ok := verifrt.JSONGet(ws[0].Body, "spec", "updateStrategy", "partition")
+		if !ok {
+			return
+		}
+		var part intstr.IntOrString
+		if strings.HasSuffix(s, "%") {
+			part = intstr.FromString(s)
+		} else {
+			n, e := strconv.Atoi(s)
+			if e != nil {
+				return
+			}
+			part = intstr.FromInt(n)
+		}
+		kept = vStableKept(part, R)
+		verifrt.Cover("patched")
+	} else {
+		verifrt.Cover("no-patch")
+	}
+	updated := R - kept
+	if updated < 0 {
+		updated = 0
+	}
+	ctx.UpdatedReplicas = int32(updated)
+	ctx.UpdatedReadyReplicas = int32(updated)
+	verifrt.Assert(ctx.IsBatchReady() == nil, "C07.cloneset.effectivePartitionSufficesForReadiness")
+}
